@@ -210,6 +210,41 @@ fn has_huge_literal(e: &Exp) -> bool {
     }
 }
 
+/// f64 value of a variable-free arithmetic subexpression (`None`: contains a variable or a non-arithmetic node).
+fn const_value(e: &Exp) -> Option<f64> {
+    match e {
+        Exp::Number(v) => Some(*v),
+        Exp::UnOp(rooc::UnOp::Neg, x) => const_value(x).map(|v| -v),
+        Exp::BinOp(op, a, b) => {
+            let (x, y) = (const_value(a)?, const_value(b)?);
+            match op { BinOp::Add => Some(x + y), BinOp::Sub => Some(x - y), BinOp::Mul => Some(x * y), BinOp::Div => Some(x / y), _ => None }
+        }
+        _ => None,
+    }
+}
+
+/// root-cause flag `constant-overflow`: the source contains a variable-free arithmetic subexpression over FINITE
+/// literals whose f64 value is not finite (`1e200 * 1e200`): whatever the compiler does with it, constant folding in
+/// f64 yields inf, and `inf - inf` yields NaN even where the exact value of the whole side is representable.
+fn has_constant_overflow(e: &Exp) -> bool {
+    if !has_nonfinite_number(e) { if let Some(v) = const_value(e) { if !v.is_finite() { return true; } } }
+    match e {
+        Exp::Number(_) | Exp::Variable(_) => false,
+        Exp::Abs(x) | Exp::Not(x) | Exp::UnOp(_, x) => has_constant_overflow(x),
+        Exp::Min(es) | Exp::Max(es) | Exp::And(es) | Exp::Or(es) => es.iter().any(has_constant_overflow),
+        Exp::Xor(x, y) | Exp::Implies(x, y) | Exp::Iff(x, y) | Exp::BinOp(_, x, y) => has_constant_overflow(x) || has_constant_overflow(y),
+    }
+}
+fn has_nonfinite_number(e: &Exp) -> bool {
+    match e {
+        Exp::Number(v) => !v.is_finite(),
+        Exp::Variable(_) => false,
+        Exp::Abs(x) | Exp::Not(x) | Exp::UnOp(_, x) => has_nonfinite_number(x),
+        Exp::Min(es) | Exp::Max(es) | Exp::And(es) | Exp::Or(es) => es.iter().any(has_nonfinite_number),
+        Exp::Xor(x, y) | Exp::Implies(x, y) | Exp::Iff(x, y) | Exp::BinOp(_, x, y) => has_nonfinite_number(x) || has_nonfinite_number(y),
+    }
+}
+
 /// finite literals whose folded product / quotient leaves the range of f64: the exact-arithmetic theorem
 /// `finite_out_partial` cannot see this region (root-cause flag `huge-literal`).
 fn overflow_case(r: &mut Rng) -> Case {
@@ -242,6 +277,67 @@ fn overflow_case(r: &mut Rng) -> Case {
     if huge {
         c.sig = Some(match c.sig.take() { Some(s) => format!("{},huge-literal", s), None => "huge-literal".into() });
     }
+    if std::iter::once(&m.objective().rhs).chain(m.constraints().iter().flat_map(|c| [c.lhs(), c.rhs()])).any(has_constant_overflow) {
+        c.sig = Some(match c.sig.take() { Some(s) => format!("{},constant-overflow", s), None => "constant-overflow".into() });
+        c.tags.push("constant-overflow".into());
+    }
+    c
+}
+
+/// small numerators over tiny / subnormal divisors (`0.001 * x / 1e-310`): the exact quotient is representable
+/// (1e307) but the reciprocal of the divisor is not, so a lowering of `e / c` as `e * (1 / c)` turns finite
+/// coefficients into `inf` and a zero constant into `0 * inf = NaN` (seeded C08-7). Half of the cases go through
+/// the text door (the divisor written as a long plain-decimal literal). Root cause: the oracle separates a value
+/// that really is outside f64 (`f64-overflow-output`, known) from a lost representable value (`non-finite-output`).
+fn tiny_divisor_case(r: &mut Rng) -> Case {
+    let v = |n: &str| Exp::Variable(n.into());
+    let k = |x: f64| Exp::Number(x);
+    let mul = |a: Exp, b: Exp| Exp::BinOp(BinOp::Mul, Box::new(a), Box::new(b));
+    let div = |a: Exp, b: Exp| Exp::BinOp(BinOp::Div, Box::new(a), Box::new(b));
+    let add = |a: Exp, b: Exp| Exp::BinOp(BinOp::Add, Box::new(a), Box::new(b));
+    let p2 = |e: i32| 2f64.powi(e);
+    let d = match r.below(10) {
+        0 | 1 => 1e-310, 2 => 2.5e-309, 3 => 5e-324, 4 => p2(-1074 + r.below(40) as i32), 5 => p2(-1030), 6 => p2(-1022),
+        7 => 1e-300, 8 => -1e-310, _ => 3e-309,
+    };
+    let num = |r: &mut Rng| *r.pick(&[1e-3, 1e-4, -5e-4, 1e-10, 2.5e-4, 1e-3]);
+    let inner = match r.below(5) {
+        0 => mul(k(num(r)), v("x")),
+        1 => add(mul(k(num(r)), v("x")), mul(k(num(r)), v("y"))),
+        2 => add(mul(k(num(r)), v("x")), k(num(r))),
+        3 => mul(v("x"), k(num(r))),
+        _ => add(add(mul(k(num(r)), v("x")), mul(k(num(r)), v("y"))), k(0.0)),
+    };
+    let lhs = div(inner, k(d));
+    let ds = vec![
+        VarDecl { name: "x".into(), ty: VariableType::NonNegativeReal(0.0, f64::INFINITY) },
+        VarDecl { name: "y".into(), ty: VariableType::Real(-3.0, 3.0) },
+    ];
+    let cmp = *r.pick(&[Comparison::LessOrEqual, Comparison::GreaterOrEqual, Comparison::Equal]);
+    let rhs = if r.chance(1, 3) { k(0.0) } else { k(1.0) };
+    let obj = if r.chance(1, 4) { div(mul(k(num(r)), v("x")), k(d)) } else { v("x") };
+    let mut m = gen_model::build(OptimizationType::Min, obj, vec![Constraint::new(lhs, cmp, rhs, String::new())], &ds);
+    let mut door = "api";
+    if r.chance(1, 2) {
+        // text door: every literal in plain decimal notation (`{:.N}` prints the exact binary value, so it reads back)
+        let lit = |x: f64| { let s = format!("{:.1100}", x); let s = s.trim_end_matches('0'); if s.ends_with('.') { format!("{}0", s) } else { s.to_string() } };
+        fn show(e: &Exp, lit: &dyn Fn(f64) -> String) -> String {
+            match e {
+                Exp::Number(x) => if *x < 0.0 { format!("(0 - {})", lit(-*x)) } else { lit(*x) },
+                Exp::Variable(n) => n.clone(),
+                Exp::BinOp(op, a, b) => format!("({} {} {})", show(a, lit), match op { BinOp::Add => "+", BinOp::Sub => "-", BinOp::Mul => "*", _ => "/" }, show(b, lit)),
+                _ => unreachable!(),
+            }
+        }
+        let c0 = &m.constraints()[0];
+        let cs = match c0.constraint_type() { Comparison::LessOrEqual => "<=", Comparison::GreaterOrEqual => ">=", _ => "=" };
+        let src = format!("min {}\ns.t.\n    {} {} {}\ndefine\n    x as NonNegativeReal\n    y as Real(-3, 3)\n", show(&m.objective().rhs, &lit), show(c0.lhs(), &lit), cs, show(c0.rhs(), &lit));
+        if let Ok(pm) = rooc::RoocParser::new(src).parse_and_transform(vec![], &indexmap::IndexMap::new()) { m = pm; door = "text"; }
+    }
+    let mut c = crate::props::c01::one(&m, "tiny-divisor", "c08");
+    c.tags.push(format!("tiny-divisor:{}", door));
+    c.tags.push(if d.abs() < f64::MIN_POSITIVE { "subnormal-divisor".into() } else { "tiny-normal-divisor".into() });
+    c.sig = Some(match c.sig.take() { Some(s) => format!("{},huge-literal", s), None => "huge-literal".into() });
     c
 }
 
@@ -349,7 +445,9 @@ fn display_targeted(r: &mut Rng) -> Model {
     let free = VariableType::Real(f64::NEG_INFINITY, f64::INFINITY);
     let boxed = VariableType::Real(-2.0, 3.0);
     let names = ["x", "y", "z", "B", "a"];
-    let (lhs, tys): (Exp, Vec<VariableType>) = match r.below(11) {
+    let (lhs, tys): (Exp, Vec<VariableType>) = match r.below(12) {
+        // a product of two variables / a division by a variable
+        11 => (if r.chance(1, 2) { bin(BinOp::Mul, v("x"), v("y")) } else { bin(BinOp::Div, v("x"), bin(BinOp::Add, v("y"), k(1.0))) }, vec![boxed, boxed, boxed, boxed, VariableType::Boolean]),
         // an empty numeric aggregation
         10 => (bin(BinOp::Add, if r.chance(1, 2) { Exp::Min(vec![]) } else { Exp::Max(vec![]) }, v("x")), vec![boxed, boxed, boxed, boxed, VariableType::Boolean]),
         // an and/or node that collapses to a non-logic operand whose lowering needs finite bounds: the up-front
@@ -408,6 +506,7 @@ pub fn generate(seed: u64, n: usize, thorough: bool, corpus: Option<&str>) -> Ve
         out.push(permutation_case(&mut r, tag, cfg));
     }
     for _ in 0..(n / 20).max(20) { out.push(overflow_case(&mut r)); }
+    for _ in 0..(n / 10).max(60) { out.push(tiny_divisor_case(&mut r)); }
     for i in 0..(n / 5).max(60) {
         let (tag, cfg) = &cfgs[i % cfgs.len()];
         out.push(name_order_case(&mut r, tag, cfg));
